@@ -317,6 +317,8 @@ def _only_z3(r):
 def run(tier, seed, only, jobs):
     t0 = time.time()
     U = units_A(tier) + units_B(tier)
+    from props.common import ext_units as _ext
+    U += _ext("C08")
     if only:
         U = [x for x in U if only in x[0]]
     res = core.run_units(U, jobs=jobs)
